@@ -506,6 +506,20 @@ def d_except_as_match(a, l):
     return y
 
 
+def d_try_in_handler(a, l):
+    x = 0
+    try:
+        x = 1 // a
+    except Exception:
+        try:
+            x -= 5
+        except KeyError:
+            x -= 1
+        finally:
+            x += 2
+    return x
+
+
 def d_with(a, l):
     y = 1
     with CM():
@@ -558,7 +572,7 @@ def d_try_finally(a, l):
         y *= 2
     return y
 '''
-RICH_DIRECTED_CALLS = [(f, "typed", args) for f in ("d_except_as_match", "d_with", "d_comprehension", "d_generator", "d_closure", "d_try_finally")
+RICH_DIRECTED_CALLS = [(f, "typed", args) for f in ("d_except_as_match", "d_try_in_handler", "d_with", "d_comprehension", "d_generator", "d_closure", "d_try_finally")
                        for args in ((0, [1, 2]), (0, []), (1, [2, 1]), (3, [3, 1, 4]))]
 
 
